@@ -874,7 +874,14 @@ pub extern "C" fn tsrun_call(
             .collect()
     };
 
-    match ctx.interp.call_function(func_val, this_val, &args_vec) {
+    // Native callbacks reached from this call find the context through interp.ffi_context
+    // (the call may itself come from a native callback during tsrun_step/tsrun_run: restore)
+    let ctx_ptr = ctx as *mut TsRunContext as *mut core::ffi::c_void;
+    let prev_ffi_context = core::mem::replace(&mut ctx.interp.ffi_context, ctx_ptr);
+    let result = ctx.interp.call_function(func_val, this_val, &args_vec);
+    ctx.interp.ffi_context = prev_ffi_context;
+
+    match result {
         Ok(guarded) => TsRunValueResult::ok(TsRunValue::from_runtime_value(
             crate::RuntimeValue::from_guarded(guarded),
         )),
@@ -944,7 +951,13 @@ pub extern "C" fn tsrun_call_method(
     };
 
     let this_val = JsValue::Object(obj_ref.cheap_clone());
-    match ctx.interp.call_function(method_val, this_val, &args_vec) {
+    // See tsrun_call: native callbacks need the context pointer
+    let ctx_ptr = ctx as *mut TsRunContext as *mut core::ffi::c_void;
+    let prev_ffi_context = core::mem::replace(&mut ctx.interp.ffi_context, ctx_ptr);
+    let result = ctx.interp.call_function(method_val, this_val, &args_vec);
+    ctx.interp.ffi_context = prev_ffi_context;
+
+    match result {
         Ok(guarded) => TsRunValueResult::ok(TsRunValue::from_runtime_value(
             crate::RuntimeValue::from_guarded(guarded),
         )),
